@@ -234,6 +234,19 @@ def corpus():
             out.append({'op': 'wav_twice', 'input': [[-32768, -1, 0, 32767, 12345, -4242, 7, 5], rate, k % 3, helper]})
             k += 1
     out.append({'op': 'wav_twice', 'input': [[], 16000, 0, 0]})
+    # durations just below / exactly at / just above k whole copies (seed C20-3: the copy count must not be short by one)
+    for rate in RATES:
+        for ln, big in ((2500, False), (rate, True), (min(2 * rate, MAXLEN), True)):
+            for k in (0, 1, 2, 3):
+                for e in (-2, -1, 0, 1, 2, 7):
+                    want = k * ln + e
+                    if want < 0:
+                        continue
+                    for d in ((want + 0.5) / rate, want / rate):
+                        if big or k * ln > 10000:
+                            out.append({'op': 'rep_len', 'input': [ln, rate, T(d)]})       # recorder: nothing allocated
+                        else:
+                            out.append({'op': 'rep_ramp', 'input': [0, ln, rate, T(d)]})
     out += _audit_corpus()
     return out
 
@@ -271,9 +284,13 @@ def cases(rng, tier, n=None):
         r = rng.random()
         if ln == 0:
             d = _rand_time(rng, rate, 10)
-        elif r < 0.35:      # whole multiples of the signal, +- ulps
+        elif r < 0.2:       # whole multiples of the signal, +- ulps
             k = rng.randint(1, max(1, min(6, cap // ln)))
             d = _ulps(k * ln / rate, rng.choice([0, 0, 1, -1, 2, -2]))
+        elif r < 0.35:      # within +-2 samples of a whole multiple (0 copies included)
+            k = rng.randint(0, max(1, min(6, cap // ln)))
+            want = max(0, k * ln + rng.choice([-2, -1, 1, 2]))
+            d = rng.choice([(want + 0.5) / rate, _ulps(want / rate, rng.choice([0, 1, -1]))])
         elif r < 0.5:       # multiples computed the way callers do: k * (len / rate)
             k = rng.randint(1, max(1, min(6, cap // ln)))
             d = k * (ln / rate)
@@ -316,8 +333,10 @@ def cases(rng, tier, n=None):
         kmax = 10 ** rng.randint(1, 6)
         k = rng.randint(1, kmax)
         r = rng.random()
-        if r < 0.5:
+        if r < 0.3:
             d = _ulps(k * ln / rate, rng.choice([0, 0, 1, -1, 2, -2]))
+        elif r < 0.5:       # within +-2 samples of a whole multiple
+            d = (max(0, rng.choice([0, k, k]) * ln + rng.choice([-2, -1, 1, 2])) + 0.5) / rate
         elif r < 0.7:
             d = k * (ln / rate)
         else:
